@@ -54,6 +54,7 @@ for idx, (stream, size, kind, flush) in enumerate(plan["blocks"]):
     if flush:
         f.flush()
 sys.stdout.buffer.flush(); sys.stderr.buffer.flush()
+sys.exit(plan.get("exit", 0))
 '''
 
 
@@ -118,7 +119,9 @@ def scenario(rng, k, mode):
     # nested use: `cond` started from inside a task of an outer `cond run -j N` (or from a shell that exported the variables
     # to try a script by hand) inherits the outer task's COND_* variables; they are not this invocation's business
     ambient = {"COND_SLOT": str(k % 3), "COND_NAME": "outer", "COND_OUT": "/nonexistent/outer.task"} if k % 5 in (2, 3) else {}
-    return {"k": k, "mode": mode, "plan": {"seed": k, "blocks": blocks}, "args": args, "opts": opts, "ambient": ambient}
+    # the command may FAIL after having written its output: the logs are exact all the same (the records are not required then)
+    code = rng.choice([0, 0, 0, 3, 1, 128])
+    return {"k": k, "mode": mode, "plan": {"seed": k, "blocks": blocks, "exit": code}, "args": args, "opts": opts, "ambient": ambient}
 
 
 def pyrepr(v):
@@ -217,7 +220,7 @@ def main(tier):
                 opts_ok = isinstance(dec, dict) and set(dec) == set(scn["opts"]) and all(same_value(dec[k], v) for k, v in scn["opts"].items())
             except Exception:
                 opts_ok = False
-        rows.append({"id": scn["k"], "mode": scn["mode"], "written": [written[1], written[2]],
+        rows.append({"id": scn["k"], "mode": scn["mode"], "failed": bool(plan.get("exit")), "written": [written[1], written[2]],
                      "logged": [lo.get(1, []) + [-99] * 0, le.get(2, [])] if True else [],
                      "forwarded": [fo.get(1, []), fe.get(2, [])],
                      "argsPresent": r["args_json"] is not None, "argsNonEmpty": bool(scn["args"]), "argsEqual": args_ok,
